@@ -26,7 +26,12 @@
    C04_quoted_scanner_partial is the scanner lemma that C04_attr_value_literal builds on (kept).
    C04_text_with_attributes / C04_expand_text_element: text on an element that also carries `#id`, `.class`,
    `[...]` (`a.c[b=1]{t}`), front end and whole pipeline.
-   Not covered by a theorem: `$` numbering / fields inside text and attribute values, text written
+   Text WITH numbering (end of file, proofs/TextNested.v): C04_text_nested -- `name{P}` for every payload P in
+   which literal runs alternate with `$` counters, `$#` and `${n}` / `${n:placeholder}` fields at ANY depth of
+   inner braces (the fact behind repair 86fc68a, `p{{$}}`), with C04_tokenize_nested, C04_nested_closing_brace,
+   C04_parse_nested, C04_nested_value_text, C04_nested_value_flat, C04_nested_scanner, C04_nested_repeated (copy i
+   of `name{P}*N`); C04_nested_extends_text_literal shows C04_text_literal is its one-run case.
+   Not covered by a theorem: `$` numbering / fields inside attribute values, text written
    between the attribute parts (`a{t}.c`), text under the haml / pug / slim formatters -- these are
    covered by the model/implementation correspondence and the oracle. *)
 From Coq Require Import String.
@@ -381,3 +386,95 @@ Example C04_plain_nonvacuous :
                 match parse false toks with POk r => Ok r | PErr _ => Internal 0%N end) = Ok root
                /\ quiet_all root.
 Proof. eexists. split; [vm_compute; reflexivity|]. cbn. repeat split; repeat constructor; try discriminate. Qed.
+
+(* ================================================================ text WITH numbering inside nested braces
+   (repair 86fc68a: `p{{$}}`, `p{a{$}b}`, `p{{$#}}`, `p{{${1}}}` used to be "Unexpected character").
+
+   Vocabulary (proofs/TextNested.v).  A [payload] is a literal run followed by (item, literal run) any number
+   of times, runs may be empty; an [item] is a counter [INum n at_sign reverse digits] written `$`*n, `$`*n@,
+   `$`*n@M, `$`*n@-, `$`*n@-M, the placeholder [IPh] `$#`, or a field [IField index ph] `${index}` /
+   `${index:ph}`.  [payload_text P] is the payload as written.  [payload_ok P]: read from the opening brace of the
+   text, every run keeps the brace depth >= 0 ([walk]: no unescaped `$`, no dangling backslash; a run need NOT be
+   balanced by itself), the depth is back to 0 at the end (the written text is balanced modulo escapes), every item
+   is written in a documented form, and the character after it cannot be read as its continuation ([item_ok]: no
+   `$`/`@` after a bare `$` run, no digit after `@3`, no `{`/`#` after a single `$`, ...; a field placeholder
+   balances its braces as the tokenizer counts them, [rawbal]).  Items may stand at ANY brace depth.
+   [payload_tokens pos P]: the value tokens in order -- per run its leading white space and ONE literal holding the
+   rest unescaped (inner braces kept), per item ONE token over its whole form with the fields the tokenizer gives it
+   ([item_kind]: RepeaterNumber size reverse base, RepeaterPlaceholder, Field name index).
+   [nested_value reps P]: the node value -- runs unescaped, counters replaced by the counter in force under the
+   repeater stack [reps] zero-padded (C02_numbering_value), `$#` by nothing (no wrap text), neighbouring strings
+   glued into one string, fields kept as fields. *)
+From Emmet Require Import proofs.NumberingProofs proofs.ConvertProofs proofs.TextNested.
+
+(* text_nested.  For EVERY such payload and every element name, the front end (tokenize, parse, convert) turns
+   `name{P}` into the single node `name` whose value is the payload: literal runs verbatim with escapes resolved
+   and inner braces kept, every counter replaced by its value (1 outside repeaters), fields as fields. *)
+Theorem C04_text_nested :
+  forall (jsx : bool) (env : cenv) (max_repeat : option N) (name : str) (P : payload),
+    name_ok name -> payload_ok P = true -> ce_text env = WNone ->
+    parse_abbr jsx env max_repeat (name ++ c_lbrace :: payload_text P ++ [c_rbrace]) =
+      Ok [ANode (Some name) (nested_value [] P) None None [] false].
+Proof. exact text_nested. Qed.
+Print Assumptions C04_text_nested.
+
+(* its stages.  (1) the tokens: name, `{`, the payload's tokens, `}` ... *)
+Theorem C04_tokenize_nested :
+  forall (name : str) (P : payload), name_ok name -> payload_ok P = true ->
+    tokenize (name ++ c_lbrace :: payload_text P ++ [c_rbrace]) = TOk (nested_abbr_tokens name P).
+Proof. exact tokenize_nested. Qed.
+Print Assumptions C04_tokenize_nested.
+
+(* ... so the text bracket opened after the name is closed by exactly the LAST `}`: the closing Bracket token is
+   the last token, it spans the last character, and no token between the two is a brace token *)
+Theorem C04_nested_closing_brace :
+  forall (name : str) (P : payload), name_ok name -> payload_ok P = true ->
+    let s := name ++ c_lbrace :: payload_text P ++ [c_rbrace] in
+    exists inner,
+      tokenize s = TOk (mkTok (TLiteral name) 0 (length name)
+                        :: mkTok (TBracket true BExpr) (length name) (length name + 1)
+                        :: inner ++ [mkTok (TBracket false BExpr) (length s - 1) (length s)]) /      Forall not_expr_bracket inner.
+Proof. exact nested_closing_brace. Qed.
+Print Assumptions C04_nested_closing_brace.
+
+(* (2) the parser: ONE element whose value is the list of the payload's tokens, in order *)
+Theorem C04_parse_nested :
+  forall (jsx : bool) (name : str) (P : payload), name_ok name -> payload_ok P = true ->
+    exists toks, tokenize (name ++ c_lbrace :: payload_text P ++ [c_rbrace]) = TOk toks /      parse jsx toks =
+        POk [TElem (Some [mkTok (TLiteral name) 0 (length name)]) None
+                   (Some (payload_tokens (length name + 1) P)) None false []].
+Proof. exact parse_nested. Qed.
+Print Assumptions C04_parse_nested.
+
+(* the literal scanner resumed [d] braces deep inside a text that began at depth [es]: it reads the whole run --
+   inner `}` included -- up to the next `$` or, at depth 0, the brace that closes the text *)
+Theorem C04_nested_scanner :
+  forall (T : str) (d d' : nat) (es : Z) (prev : option char) (attr : Z) (rest : str),
+    (0 < es)%Z -> walk d T = Some d' -> stops d' rest ->
+    lit None attr es (es + Z.of_nat d) prev false (T ++ rest) = (unescape T, length T, (es + Z.of_nat d')%Z).
+Proof. exact lit_run. Qed.
+Print Assumptions C04_nested_scanner.
+
+(* (3) the value, read as text: the payload with escapes resolved and every counter replaced by its value
+   ([payload_out]; a field prints its placeholder) ... *)
+Theorem C04_nested_value_text :
+  forall (reps : list rep) (P : payload), value_text (nested_value reps P) = payload_out reps P.
+Proof. exact nested_value_text. Qed.
+Print Assumptions C04_nested_value_text.
+
+(* ... and without `${n}` fields the value IS that one string *)
+Theorem C04_nested_value_flat :
+  forall (reps : list rep) (P : payload),
+    forallb (fun kt => negb (is_field (fst kt))) (snd P) = true -> payload_text P <> [] ->
+    nested_value reps P = Some [VStr (payload_out reps P)].
+Proof. exact nested_value_flat. Qed.
+Print Assumptions C04_nested_value_flat.
+
+(* C04_text_literal is the case of a payload that is one run *)
+Theorem C04_nested_extends_text_literal :
+  forall (T : str) (reps : list rep),
+    payload_ok (T, []) = bal 0 T /\ payload_text (T, []) = T /\ nested_value reps (T, []) = text_value T.
+Proof.
+  intros T reps. split; [apply payload_ok_run|]. split; [apply app_nil_r|apply nested_value_run].
+Qed.
+Print Assumptions C04_nested_extends_text_literal.
